@@ -83,6 +83,7 @@ Definition fl_goeq (a b : fl) : bool :=
 Definition fl_hashable (f : fl) : bool :=
   match f with
   | FNaN | FNegZero => false
+  | FWhole z => negb (Z.eqb z 0)     (* 0.0 is written FPosZero; FWhole 0 is not a canonical form *)
   | _ => true
   end.
 
@@ -743,3 +744,17 @@ Fixpoint keys_distinct (l : list bytes) : bool :=
   match l with [] => true | k :: l' => negb (mem_ident k l') && keys_distinct l' end.
 Definition closed_hist (defs : list fdef) : bool :=
   forallb closed_fn defs && keys_distinct (map fd_key defs).
+
+(* the inputs of a history write no function value as a literal (function values only come from EFun) *)
+Fixpoint lits_ok (e : expr) : bool :=
+  match e with
+  | ELit v => negb (has_function v)
+  | EAssign _ a => lits_ok a
+  | ECall f args => lits_ok f && (fix all (l : list expr) : bool := match l with [] => true | a :: l' => lits_ok a && all l' end) args
+  | EArr es | EPrint es => (fix all (l : list expr) : bool := match l with [] => true | a :: l' => lits_ok a && all l' end) es
+  | EBin _ a b | ESeq a b => lits_ok a && lits_ok b
+  | EIf c a b => lits_ok c && lits_ok a && lits_ok b
+  | _ => true
+  end.
+Definition closed_session (defs : list fdef) (inputs : list expr) : bool :=
+  closed_hist defs && forallb lits_ok inputs.
